@@ -115,8 +115,27 @@ static Verdict run_c12_cli(const Case &c)
       return bad("encryption (exit " + std::to_string(r.code) + ") modified its input file");
     return v;
   }
+  // mode options on the command line of -v / -d (the README shows `-d ... --cmode 2`): the file's own header decides,
+  // and whatever the options mean to one of the two operations they must mean to the other
+  std::vector<std::string> extra;
+  if (c.geti("optc", -1) >= 0)
+  {
+    extra.push_back("--cmode");
+    extra.push_back(std::to_string(c.geti("optc")));
+  }
+  if (c.geti("opth", -1) >= 0)
+  {
+    extra.push_back("--hmode");
+    extra.push_back(std::to_string(c.geti("opth")));
+  }
+  if (!extra.empty())
+    v.classes.push_back("cli_mode_options_given");
+  auto with_extra = [&](std::vector<std::string> av) {
+    av.insert(av.end(), extra.begin(), extra.end());
+    return av;
+  };
   std::set<std::string> before = list_dir(dir);
-  RunRes rv = spawn(b1, {"-v", "-i", path, "-k", ks, "-n"}, dir);
+  RunRes rv = spawn(b1, with_extra({"-v", "-i", path, "-k", ks, "-n"}), dir);
   if (rv.timed_out)
     return v;
   std::set<std::string> after = list_dir(dir);
@@ -128,7 +147,7 @@ static Verdict run_c12_cli(const Case &c)
     return bad("verification created or removed a file in its directory");
   if (!unchanged())
     return bad("verification modified its input file");
-  RunRes rd = spawn(b1, {"-d", "-i", path, "-o", "dec.out", "-k", ks, "-n"}, dir);
+  RunRes rd = spawn(b1, with_extra({"-d", "-i", path, "-o", "dec.out", "-k", ks, "-n"}), dir);
   if (rd.timed_out)
     return v;
   if (!unchanged())
@@ -180,6 +199,11 @@ static Verdict run_c12(const Case &c)
   };
   // verification and decryption each in their own child, on their own copy
   wapi::PipeCfg pc = pcfg(e, wapi::SchedSpec());
+  // the caller's Settings may name a cipher / hash mode (the CLI's --cmode / --hmode on a -d / -v command line)
+  pc.hint_c = (int)c.geti("hint_c", -1);
+  pc.hint_h = (int)c.geti("hint_h", -1);
+  if (pc.hint_c >= 0 || pc.hint_h >= 0)
+    v.classes.push_back("settings_name_a_mode");
   // "for every file and key" includes files met after other files: half of the cases first run verify or
   // decrypt of the intact base file (right key) in the same process, then the operation under test
   int warm = (int)c.geti("warm", 0);
@@ -316,6 +340,13 @@ static Case gen_c12()
   else
     c.set("keykind", "right");
   c.seti("also_encrypt", g::coin(15) ? 1 : 0);
+  if (g::coin(20))
+  {
+    if (g::coin(70))
+      c.seti("hint_c", g::range(0, 5));
+    if (g::coin(50))
+      c.seti("hint_h", g::range(0, 3));
+  }
   c.seti("warm", g::coin(55) ? g::range(1, 6) : 0);
   return c;
 }
@@ -334,7 +365,7 @@ static void fixed_c12(Ctx &ctx)
         lens.push_back(L);
     for (long L : lens)
       for (const char *op : {"e", "v"})
-        for (int variant = 0; variant < (std::string(op) == "e" ? 2 : 3); variant++)
+        for (int variant = 0; variant < (std::string(op) == "e" ? 2 : 6); variant++)
         {
           if (!mine(ctx, i++))
             continue;
@@ -352,6 +383,11 @@ static void fixed_c12(Ctx &ctx)
           {
             c.seti("tamper", variant == 1 ? 1 + (L % 2) : 0);
             c.seti("wrongkey", variant == 2);
+            // variants 3-5: a valid file, right key, and mode options that differ from / equal the file's modes
+            if (variant == 3 || variant == 5)
+              c.seti("optc", (c.geti("cmode") + (variant == 3 ? 1 + L % 4 : 0)) % 5);
+            if (variant == 4 || variant == 5)
+              c.seti("opth", (c.geti("hmode") + (variant == 4 ? 1 + L % 2 : 0)) % 3);
           }
           eval_fixed(*p, ctx, c);
         }
